@@ -84,7 +84,7 @@ int main() {
   // windowed execution (the initial work does not fit into one window of 1280 items): 3 % of the quick runs, 25 % thorough
   bool large = wl_chance(tier() ? 25 : 3);
   if (large) execs = 2;
-  generate(w, true, ORD_NONE, hw, 7, large ? (int)wl_range(1300, tier() ? 2400 : 1500) : 0);
+  generate(w, true, ORD_NONE, hw, 7, large ? (int)wl_range(1300, tier() ? 1900 : 1500) : 0);
   vsim_set_budget(600000 + 6000ull * w.items.size() * execs);
   use_local_state = variant == 2 || variant == 3;
   long break_at = variant == 4 ? wl_range(1, std::max<long>(1, w.total_closure)) : 0;
